@@ -119,6 +119,11 @@ var vC06Stmts = []string{
 	"select key where 6 / len(value) > A | A / (len(value) - B) = 1",
 	"select key, int(value) / len(json(value)['nope']), 1 / len('') where key >= ''",
 	"select key, str(json(value)), int(json(value)), upper(json(value)['x']) where key >= ''",
+	// aggregate parameters outside their domain
+	"select quantile(strlen(value), 0 - 0.5) where key >= ''", "select quantile(strlen(value), A - B) where key >= ''",
+	"select quantile(strlen(value), A) where key >= ''", "select quantile(strlen(value), 0.5 * A) where key >= ''",
+	"select quantile(value, 1.0) where key >= ''", "select group_concat(key, A) where key >= ''",
+	"select value, quantile(strlen(key), 0 - 1) where key >= '' group by value",
 }
 
 func VN_C06_STMTS(tier int) int { return len(vC06Stmts) }
